@@ -3,7 +3,7 @@
 use crate::common::*;
 use crate::engine::*;
 use crate::suites::*;
-use crate::tape::Sm;
+use crate::tape::{Sm, Tape};
 use crate::{dispatch, ensure};
 use frost_core as frost;
 use frost_core::keys::dkg;
@@ -88,7 +88,7 @@ impl Property for C07 {
     }
     fn required_labels(&self, tier: Tier) -> Vec<(String, u64)> {
         let m = tier.pick(10, 100);
-        vec![("t=n".into(), m), ("n>=5".into(), m), ("t>=16".into(), 6), ("tr:internal-key-odd".into(), 3), ("tr:internal-key-even".into(), 3)]
+        vec![("t=n".into(), m), ("n>=5".into(), m), ("t>=16".into(), 6), ("equal-polynomials".into(), m), ("tr:internal-key-odd".into(), 3), ("tr:internal-key-even".into(), 3)]
     }
     fn check(&self, suite: SuiteId, case: &Case, ctx: &mut Ctx) -> CheckResult {
         dispatch!(suite, check(case, ctx))
@@ -166,6 +166,52 @@ fn check<C: Suite>(case: &Case, ctx: &mut Ctx) -> CheckResult {
     let idv = make_ids::<C>(case.ids, n);
     // the ciphersuite crate's own keys::dkg::part1/2/3 give what the generic functions give
     crate::wrappers::differential::<C>(ctx, "C07", crate::wrappers::Part::Dkg, case.seed)?;
+    // degenerate but honest (one case in five, small groups): two - or all - participants drew the SAME polynomial
+    // (identically seeded random sources). Their proofs of knowledge still differ (bound to the identifier); the run
+    // must complete like any other.
+    if case.seed % 5 == 2 && n <= 6 {
+        ctx.label("equal-polynomials");
+        let all_same = case.seed % 10 == 2;
+        let mut sorted = idv.clone();
+        sorted.sort();
+        let mut r1s = BTreeMap::new();
+        let mut r1p = BTreeMap::new();
+        for (k, id) in sorted.iter().enumerate() {
+            let ts = if all_same || k < 2 { case.seed ^ 0xe9a1 } else { case.seed ^ 0xe9a1 ^ (k as u64 + 1) };
+            match dkg::part1::<C, _>(*id, shape.n, shape.t, Tape::random(ts)) {
+                Ok((s, p)) => {
+                    r1s.insert(*id, s);
+                    r1p.insert(*id, p);
+                }
+                Err(e) => return ctx.fail("C07/honest-part1-failed", format!("part1 failed ({desc}): {e:?}")),
+            }
+        }
+        let mut r2s = BTreeMap::new();
+        let mut r2p: BTreeMap<Id<C>, BTreeMap<Id<C>, dkg::round2::Package<C>>> = BTreeMap::new();
+        for id in &sorted {
+            let input: BTreeMap<_, _> = r1p.iter().filter(|(k, _)| *k != id).map(|(k, v)| (*k, v.clone())).collect();
+            match dkg::part2(r1s[id].clone(), &input) {
+                Ok((s, o)) => {
+                    r2s.insert(*id, s);
+                    r2p.insert(*id, o);
+                }
+                Err(e) => return ctx.fail("C07/honest-part2-failed", format!("part2 failed for honest participant {} although every contribution is honest ({} participants drew the same polynomial; {desc}): {e:?}", id_hex::<C>(id), if all_same { "all" } else { "two" })),
+            }
+        }
+        let mut pks = Vec::new();
+        for id in &sorted {
+            let in1: BTreeMap<_, _> = r1p.iter().filter(|(k, _)| *k != id).map(|(k, v)| (*k, v.clone())).collect();
+            let in2: BTreeMap<_, _> = sorted.iter().filter(|k| *k != id).map(|k| (*k, r2p[k][id].clone())).collect();
+            match dkg::part3(&r2s[id], &in1, &in2) {
+                Ok((kp, pk)) => {
+                    consistent::<C>(ctx, &kp, &pk, shape.t, n, "C07", &desc)?;
+                    pks.push(pk.serialize().ok());
+                }
+                Err(e) => return ctx.fail("C07/honest-part3-failed", format!("part3 failed for honest participant {} (equal polynomials; {desc}): {e:?}", id_hex::<C>(id))),
+            }
+        }
+        ensure!(ctx, pks.windows(2).all(|w| w[0] == w[1]), "C07/public-key-packages-differ", "participants hold different public key packages (equal polynomials; {desc})");
+    }
     let run = dkg_rounds::<C>(shape, &idv, case.seed, "C07")?;
     let exp = expected_from_run::<C>(ctx, &run, &idv)?;
     if t == n {
